@@ -1051,6 +1051,255 @@ def classifier_stream(ctx, ex, thorough):
 
 
 # =====================================================================================================
+# (E) monitors / reducers recording a signal of MIXED PRECISION (storage dtype x observation dtype per step)
+
+DTYPES = {"f16": torch.float16, "bf16": torch.bfloat16, "f32": torch.float32, "f64": torch.float64}
+MON_REDUCERS = ["pass", "ema", "ca"]
+MON_KINDS = ["output", "input", "state"]
+
+
+class _Sensor(inferno.Module):
+    """the monitored module: keeps the precision of the reading it is given"""
+
+    def __init__(self):
+        inferno.Module.__init__(self)
+        self.level = None
+
+    def forward(self, reading):
+        self.level = reading * 0.5 - 0.25
+        return reading * 0.1 + 0.3
+
+
+class _Rig(inferno.Module):
+    def __init__(self, mons):
+        inferno.Module.__init__(self)
+        self.sensor = _Sensor()
+        self.names = []
+        for i, mc in enumerate(mons):
+            dur = float(mc["duration"])
+            if mc["reducer"] == "pass":
+                red = obs.PassthroughReducer(1.0, duration=dur, inplace=mc["inplace"])
+            elif mc["reducer"] == "ema":
+                red = obs.EMAReducer(1.0, mc["alpha"], duration=dur, inplace=mc["inplace"])
+            else:
+                red = obs.CAReducer(1.0, duration=dur, inplace=mc["inplace"])
+            if mc["monitor"] == "output":
+                mon = obs.OutputMonitor(red, self.sensor)
+            elif mc["monitor"] == "input":
+                mon = obs.InputMonitor(red, self.sensor)
+            else:
+                mon = obs.StateMonitor(red, "level", self.sensor)
+            setattr(self, f"m{i}", mon)
+            self.names.append(f"m{i}")
+
+    def forward(self, reading):
+        self.sensor(reading)
+        out = {}
+        for n, mc in zip(self.names, self.mons_cfg):
+            mon = getattr(self, n)
+            for what, v in (("dump", mon.dump()), ("peek", mon.peek())):
+                out[f"{n}.{what}"] = None if v is None else v.detach().clone()
+            for lag in range(1, int(mc["duration"])):
+                v = mon.view(float(lag))
+                out[f"{n}.view({lag})"] = None if v is None else v.detach().clone()
+        return out
+
+
+class default_dtype:
+    """the configuration's storage precision: instances are constructed and run under this default dtype"""
+
+    def __init__(self, dt):
+        self.dt = dt
+
+    def __enter__(self):
+        self.prev = torch.get_default_dtype()
+        torch.set_default_dtype(self.dt)
+
+    def __exit__(self, *a):
+        torch.set_default_dtype(self.prev)
+
+
+def mon_build(cfg):
+    rig = _Rig(cfg["monitors"])
+    rig.mons_cfg = cfg["monitors"]
+    return rig
+
+
+def mon_signal(cfg, seed, sched):
+    """one reading per step, of the precision the schedule names, with values that no narrower precision holds exactly"""
+    g = nb.gen(seed)
+    base = torch.rand(len(sched), *cfg["shape"], generator=g, dtype=torch.float64) * 3 - 1
+    return [base[t].to(DTYPES[d]) for t, d in enumerate(sched)]
+
+
+def mon_snap(rig):
+    return nb.snapshot({"rig": rig})
+
+
+def mon_diff(a, b):
+    """values first (compared in double precision), then everything else (dtype, shape, extras)"""
+    for k in sorted(set(a) & set(b)):
+        x, y = a[k], b[k]
+        if isinstance(x, torch.Tensor) and isinstance(y, torch.Tensor) and x.shape == y.shape and x.is_floating_point() \
+                and y.is_floating_point() and x.numel():
+            xd, yd = x.double(), y.double()
+            if not (torch.equal(torch.isnan(xd), torch.isnan(yd)) and torch.equal(torch.nan_to_num(xd), torch.nan_to_num(yd))):
+                idx = ((xd != yd) & ~(torch.isnan(xd) & torch.isnan(yd))).nonzero()[0].tolist()
+                return (k, f"values differ at {idx}: {xd[tuple(idx)].item()!r} ({x.dtype}) vs {yd[tuple(idx)].item()!r} ({y.dtype})")
+    return nb.first_diff(a, b)
+
+
+def mon_config(rng, idx, force=None):
+    force = force or {}
+    storage = force.get("storage") or rng.choice(["f32", "f32", "f64", "bf16", "f16"])
+    T = 8
+    pool = force.get("pool") or rng.sample(list(DTYPES), rng.choice([1, 2, 3]))
+    pattern = force.get("pattern") or rng.choice(["switch", "switch", "random", "constant"])
+    if pattern == "constant":
+        sched = [rng.choice(pool)] * T
+    elif pattern == "switch":
+        # the pipeline delivers the storage precision first and another precision from some step on (possibly back again later)
+        s1 = rng.randrange(1, T - 1)
+        s2 = rng.choice([T, T, rng.randrange(s1 + 1, T + 1)])
+        other = rng.choice(pool)
+        sched = [storage if (t < s1 or t >= s2) else other for t in range(T)]
+    else:
+        sched = [rng.choice(pool + [storage]) for _ in range(T)]
+    mons = []
+    for i in range(rng.choice([3, 4] if "reducer" in force else [2, 3, 4])):
+        mons.append({"reducer": rng.choice(MON_REDUCERS), "monitor": rng.choice(MON_KINDS),
+                     "duration": rng.choice([0, 2, 3, 4]), "alpha": rng.choice([0.3, 0.5, 0.125]),
+                     "inplace": bool(force["inplace"] if "inplace" in force else rng.random() < 0.4)})
+    if "reducer" in force:      # forced coverage: all three folds in the forced write mode
+        for mc, rk in zip(mons, MON_REDUCERS):
+            mc["reducer"] = rk
+    return {"id": idx, "storage": storage, "sched": sched, "shape": list(rng.choice([(2, 3), (3,), (1, 4), ()])), "monitors": mons,
+            "xseed": rng.randrange(2**31), "T": T, "other_steps": rng.choice([2, 3, 5]),
+            "clear_at": (rng.randrange(1, T) if rng.random() < 0.2 else None)}
+
+
+def mon_step(rig, cfg, t, x, clear=False):
+    with torch.no_grad():
+        if clear:
+            for n in rig.names:
+                getattr(rig, n).clear(keepshape=True)
+        return rig(x)
+
+
+def mon_run(cfg):
+    """the uninterrupted run: checkpoint before every step, outputs and state after every step"""
+    with default_dtype(DTYPES[cfg["storage"]]):
+        rig = mon_build(cfg)
+        X = mon_signal(cfg, cfg["xseed"], cfg["sched"])
+        U = {"X": X, "ck": [], "out": [], "snap": [], "snap0": []}
+        for t in range(cfg["T"]):
+            U["ck"].append(ser(rig.state_dict()))
+            U["snap0"].append(mon_snap(rig))
+            U["out"].append(mon_step(rig, cfg, t, X[t], clear=(cfg["clear_at"] == t)))
+            U["snap"].append(mon_snap(rig))
+    return U
+
+
+def mon_resume(cfg, U, k, tkind, prior_dt):
+    """restore checkpoint k into another instance of the same configuration (fresh0: freshly constructed; a: has seen one step of
+    other data; b: run on other data for several steps - prior data of precision `prior_dt`); returns (status, detail)"""
+    with default_dtype(DTYPES[cfg["storage"]]):
+        tg = mon_build(cfg)
+        nsteps = {"fresh0": 0, "a": 1, "b": cfg["other_steps"]}[tkind]
+        Xo = mon_signal(cfg, cfg["xseed"] + 1000 + k, [prior_dt] * nsteps)
+        for t in range(nsteps):
+            mon_step(tg, cfg, t, Xo[t])
+        try:
+            tg.load_state_dict(deser(U["ck"][k]), strict=True)
+        except RuntimeError as e:
+            if "Error(s) in loading state_dict" in str(e):
+                return "rejected", parse_load_error(str(e))
+            return "wrong-error", f"{type(e).__name__}: {str(e)[:300]}"
+        except Exception as e:
+            return "wrong-error", f"{type(e).__name__}: {str(e)[:300]}"
+        try:
+            d = mon_diff(U["snap0"][k], mon_snap(tg))
+            if d:
+                return "diverged", {"step": k, "when": "immediately after load", "entry": d[0], "what": d[1]}
+            for t in range(k, cfg["T"]):
+                o = mon_step(tg, cfg, t, U["X"][t], clear=(cfg["clear_at"] == t))
+                d = mon_diff(U["out"][t], o)
+                if d:
+                    return "diverged", {"step": t, "when": "output", "entry": d[0], "what": d[1]}
+                d = mon_diff(U["snap"][t], mon_snap(tg))
+                if d:
+                    return "diverged", {"step": t, "when": "state after step", "entry": d[0], "what": d[1]}
+        except Exception as e:
+            return "diverged", {"step": k, "when": "continuing after the load", "entry": "exception",
+                                "what": f"{type(e).__name__}: {str(e)[:300]}"}
+    return "ok", None
+
+
+def monitor_stream(ctx, ex, thorough):
+    """Monitors (output / input / state) with fold reducers (passthrough, EMA, cumulative average; in-place and out-of-place; several
+    durations) over a sensor whose readings change PRECISION during the run (float16 / bfloat16 / float32 / float64 per step, against
+    a record whose storage precision is the configuration's default dtype).  For every checkpoint step k the state dict goes
+    through torch.save / torch.load / load_state_dict(strict=True) into an instance of the same configuration that is freshly
+    constructed (k = 0) or has seen one / several steps of other data (of the storage precision, or of one of the run's
+    precisions); outputs (dump, peek, view at every stored lag) and state are compared with the uninterrupted run - values in
+    double precision first, then dtype / shape / extras."""
+    rng = ctx.rng
+    forced = [{"storage": "f32", "pool": ["f64"], "pattern": "switch", "inplace": False, "reducer": "all"},
+              {"storage": "f32", "pool": ["f64"], "pattern": "switch", "inplace": True, "reducer": "all"},
+              {"storage": "f64", "pool": ["f32", "f16"], "pattern": "random", "inplace": False, "reducer": "all"},
+              {"storage": "bf16", "pool": ["f32", "f64"], "pattern": "switch", "inplace": False, "reducer": "all"},
+              {"storage": "f16", "pool": ["bf16", "f32"], "pattern": "random"}]
+    plan = forced + [None] * (30 if thorough else 7)
+    late = []
+    for idx, force in enumerate(plan):
+        cfg = mon_config(rng, 2000 + idx, force)
+        try:
+            U = mon_run(cfg)
+        except Exception as e:
+            # the real code raised on a configuration inside the quantifier (the recorded signal merely changes precision)
+            add_finding(ex, "C12:monitor:run-raises", f"uninterrupted monitor run raised {type(e).__name__}: {str(e)[:300]} "
+                        f"[storage {cfg['storage']}, readings {cfg['sched']}]", {"stream": "monitors", "config": cfg, "checkpoint_step": None,
+                                                                                  "target": None, "prior_dtype": None})
+            continue
+        ex.count("monitor-storage", cfg["storage"])
+        for d in set(cfg["sched"]):
+            ex.count("monitor-reading-precision", ("wider" if DTYPES[d].itemsize > DTYPES[cfg["storage"]].itemsize else
+                                                    "same" if d == cfg["storage"] else "narrower-or-incomparable"))
+        for mc in cfg["monitors"]:
+            ex.count("monitor-reducer", f"{mc['reducer']}:{'inplace' if mc['inplace'] else 'out-of-place'}")
+        for k in range(cfg["T"]):
+            kinds = ["fresh0"] if k == 0 else ["a", "b"]
+            for j, tkind in enumerate(kinds):
+                prior_dt = cfg["storage"] if (k + j) % 2 == 0 else cfg["sched"][(k + j) % cfg["T"]]
+                status, detail = mon_resume(cfg, U, k, tkind, prior_dt)
+                ex.evaluations += 1
+                ex.traces_validated += 1
+                ex.count("monitor-outcome", status)
+                case = {"stream": "monitors", "config": cfg, "checkpoint_step": k, "target": tkind, "prior_dtype": prior_dt,
+                        "status": status, "detail": detail}
+                where = (f"monitors over a sensor (storage {cfg['storage']}, readings {cfg['sched']}, "
+                         f"{[(m['monitor'], m['reducer'], m['duration'], 'inplace' if m['inplace'] else 'out-of-place') for m in cfg['monitors']]}): "
+                         f"checkpoint at step {k} restored into target '{tkind}' (prior readings {prior_dt})")
+                if status == "diverged":
+                    cat = category(detail["entry"]) if category(detail["entry"]) != "other" else "record"
+                    # a stored / returned tensor of another precision than in the uninterrupted run (values still equal) is kept apart
+                    # from - and reported after - divergent values
+                    prec = detail["what"].startswith("shape/dtype")
+                    (late if prec else ex.findings).extend(
+                        [] if len([f for f in (late if prec else ex.findings) if f.key == f"C12:diverges:monitor:{cat}{':precision' if prec else ''}"]) >= 3
+                        else [Finding("spec", f"C12:diverges:monitor:{cat}{':precision' if prec else ''}",
+                                      f"{where} diverges from the uninterrupted run at step {detail['step']} ({detail['when']}): "
+                                      f"{detail['entry']}: {detail['what']}", case)])
+                elif status == "wrong-error":
+                    add_finding(ex, "C12:load-wrong-error", f"{where}: load raised {detail}", case)
+                elif status == "rejected":
+                    add_finding(ex, "C12:load-rejected-in-proviso", f"{where}: strict load rejected inside the proviso: {detail}", case)
+                else:
+                    ex.nontriv(("monitors", idx, k, tkind))
+    ex.findings.extend(late)
+
+
+# =====================================================================================================
 
 def introspection_tops(rng):
     tops = []
@@ -1106,6 +1355,7 @@ def explore(ctx) -> Exploration:
     resume_search(ctx, ex, thorough)
     pending_stream(ctx, ex, thorough)
     classifier_stream(ctx, ex, thorough)
+    monitor_stream(ctx, ex, thorough)
     ex.rule = ("(A1) key sets of every module of layers (all 8 neuron classes, 4 synapse classes, 4 connection classes, 3 layer kinds), all 12 "
                "trainers, classifier and reducers, fresh and stepped, against the model's save; (A2) seeded record / fold-reducer machine pairs "
                "(source ops, target ops, save→load, common continuation; 10-30% configuration or laziness mismatches) executed in Lean and on the "
@@ -1117,7 +1367,11 @@ def explore(ctx) -> Exploration:
                "neuron classes) run in training / inference phases (per-step adapting / non-adapting schedule with 1-3 switches, by `adapt=` keyword or "
                "train()/eval() mode of the neurons) and their a / b / shared2 / rewind targets rotate over prior histories inference-only / "
                "training-then-inference / training-only; the machine cases of (A2) likewise restore once, twice "
-               "from one object (`reload`), or into two targets, and present held observation tensors again after the restore; (C) checkpoints between trainer() and update(); (D) classifier alone. Non-trivial = the "
+               "from one object (`reload`), or into two targets, and present held observation tensors again after the restore; (C) checkpoints between trainer() and update(); (D) classifier alone; (E) output / input / state monitors with passthrough / EMA / "
+               "cumulative-average reducers (in-place and out-of-place, durations 0-4 steps) over a sensor whose readings change precision during the "
+               "run (float16 / bfloat16 / float32 / float64 per step; storage precision float32 / float64 / bfloat16 / float16 = the configuration's "
+               "default dtype), every checkpoint step restored into fresh (k = 0) / one-step / several-step targets whose prior readings had the "
+               "storage precision or one of the run's precisions, dump / peek / view at every lag and all state compared by value (in double) and dtype. Non-trivial = the "
                "load was accepted and the resumed run was compared over the whole continuation of a run in which spikes occurred")
     return ex
 
@@ -1146,6 +1400,16 @@ def replay(ctx, data) -> int:
             inprov = case["in_proviso"]
             bad += status in ("diverged", "wrong-error") or (status == "rejected" and inprov)
         return 1 if bad else 0
+    if case.get("stream") == "monitors":
+        cfg = case["config"]
+        U = mon_run(cfg)
+        if case["checkpoint_step"] is None:
+            print("the uninterrupted run completed")
+            return 0
+        status, detail = mon_resume(cfg, U, case["checkpoint_step"], case["target"], case["prior_dtype"])
+        print(f"storage {cfg['storage']}, readings {cfg['sched']}: checkpoint step {case['checkpoint_step']} -> target {case['target']} "
+              f"(prior readings {case['prior_dtype']}): {status} {detail}")
+        return 0 if status == "ok" else 1
     ex = Exploration()
     class C:  # re-run the dedicated stream of the recorded case
         pass
